@@ -12,7 +12,7 @@ TEXT = {
  "C10": ("Lean theorems: the r||s codec is exact (decode(encode(r,s)) = (r,s) for all r,s below 256^n), has the registered lengths 64/96/132, refuses any other length and oversize values, and is injective (any changed bit changes (r,s)); "
          "curve and hash tables regenerated from the source = RFC 9053. Library signatures verified by the Lean ECDSA/Ed25519 reference (and vice versa for verdicts on every mutation), Ed25519 byte-identical, keys in derived/exported/compressed form",
          "signature correctness/unforgeability and the group law are not theorems", T, "7.10"),
- "C14": ("Lean theorems on the encoding logic: leading zero octets do not change a coordinate, compressed x handled at curve length, private remote refused, ECDH never panics for any pair of keys; curve table regenerated. "
+ "C14": ("Lean theorems on the encoding logic: leading zero octets do not change a coordinate, compressed x handled at curve length, private remote refused, an X25519 remote is taken verbatim iff it has exactly 32 octets (else refused), an off-curve point or a point of another curve is refused, an uncompressed remote depends on its coordinates only as integers, ECDH never panics for any pair of keys; curve table regenerated. "
          "Both directions of the library agree with each other and with the Lean scalar multiplication / X25519 ladder on key pairs incl. leading-zero coordinates, four public-key encodings, and invalid remotes (off-curve, other curve, low order)",
          "group law (symmetry) assumed, cross-checked by the Lean curve arithmetic", T, "7.14"),
  "C15": ("Lean theorems: public keys derived from Ed25519/ECDSA private keys and the key any verifier reports contain no private parameter; embedded coordinates compared as integers (padded forms accepted), mismatch refused; "
